@@ -627,12 +627,6 @@ Fixpoint spec_accepts (sp : sstate) (h : list (prim * pres)) : Prop :=
   | (p, r) :: h' => res_equiv r (snd (spec_prim p sp)) /\ spec_accepts (fst (spec_prim p sp)) h'
   end.
 
-Fixpoint model_trace (s : state) (h : list (prim * pres)) : option state :=
-  match h with
-  | [] => Some s
-  | (p, r) :: h' => model_trace (fst (sec_prim p s)) h'
-  end.
-
 Fixpoint model_produces (s : state) (h : list (prim * pres)) : Prop :=
   match h with
   | [] => True
